@@ -69,7 +69,8 @@ type state struct {
 	inst    map[string]*instance
 	current string
 	clients map[string]*client
-	sl      *zset.VerifSL // current bare skiplist of the sl ops
+	sl      *zset.VerifSL   // current bare skiplist of the sl ops
+	slz     *zset.SortedSet // current sorted set of the slz ops
 }
 
 func newState() *state { return &state{inst: map[string]*instance{}, clients: map[string]*client{}} }
@@ -97,6 +98,8 @@ func (st *state) dispatch(toks []string) (string, string) {
 		return st.scanAll(toks)
 	case "sl":
 		return st.slOp(toks)
+	case "slz":
+		return st.slzOp(toks)
 	}
 	return "bad-op", ""
 }
